@@ -4,6 +4,6 @@ CONSTANTS
   Bug = {"SkipServerMac"}
   Kinds <- AllKinds
   VKinds <- AllVKinds
-INVARIANTS TypeOK ServerOkImpliesClientKnewSig ServerOkImpliesTokenCurrent ServerIdentityIsSubject
-           ClientOkImpliesServerKnewSig VerifyAcceptsExactly HonestRunSucceeds
+INVARIANTS TypeOK ServerOkImpliesClientKnewSig ServerOkImpliesKeyHeld ServerOkImpliesTokenCurrent ServerIdentityIsSubject
+           ClientOkImpliesServerKnewSig VerifyAcceptsExactly HonestRunSucceeds PoolRuleSucceeds
 CHECK_DEADLOCK FALSE
